@@ -434,6 +434,7 @@ def run(tier: str, seed: int, replay=None) -> int:
     from translator import t_json
     rep = Report(PROP, tier, seed, "proof")
     rep.trusted = core.COQ_TRUSTED + [
+        "source pins, set `json` (pins/json.json): registry register/get_serializer/get_deserializer, module-level from_json, the six error constructors, SingletonMeta.__call__, ormatic.utils.create_engine -- hand-modelled, not regenerated; a change reopens the correspondence obligation",
         "translator/t_json.py (fail-closed ast translator; idiom table: rsplit/startswith/dict.get/isinstance/truthiness as defined in Json/JsonVal.v)",
         "oracle model: importlib.import_module / getattr / isinstance(type) / issubclass / registry as Section variables over their documented behaviours",
         "harness/c19.py: probes of the real import machinery, outcome canonicaliser, synthetic modules c19w / c19w.sub",
@@ -453,6 +454,11 @@ def run(tier: str, seed: int, replay=None) -> int:
         rep, PROP, ["Props/C19.vo"],
         regen=[regen_entry()])
 
+    import warnings
+    from translator import pins
+    with warnings.catch_warnings():          # ast.parse of ormatic/utils.py warns about an escape in one of its docstrings
+        warnings.simplefilter("ignore", SyntaxWarning)
+        pins.oblige(rep, str(core.REPO), "json", "Json/Resolve.v + oracle model (registry = exact-class lookup on one singleton; module-level from_json delegates; error constructors never fail)")
     if model_ok and tier == "thorough" and not replay:
         coqchk(rep, PROP)
     findings = core.load_findings(PROP)
